@@ -168,6 +168,20 @@ func main() {
 				return result{false, reenc(p.Elem().Interface()), d.NumBytesRead()}
 			})
 			line += fmt.Sprintf("|dec:%v:%d:%s", d1.err, d1.n, truncs(d1.data))
+			// decode into a PRE-POPULATED destination of the same type (merge semantics: existing
+			// elements, capacity smaller than the stream length, allocated pointers, map entries)
+			pre := vh.RandValue(r.Fork(), t, vh.ValOpts{BigLens: false, NoNaN: format == "json", NoInf: format == "json", MaxLen: 3})
+			dpre := guarded(func() result {
+				p := reflect.New(t)
+				p.Elem().Set(pre)
+				d := codec.NewDecoderBytes(enc, h)
+				err := d.Decode(p.Interface())
+				if err != nil {
+					return result{true, nil, d.NumBytesRead()}
+				}
+				return result{false, reenc(p.Elem().Interface()), d.NumBytesRead()}
+			})
+			line += fmt.Sprintf("|pre:%v:%d:%s", dpre.err, dpre.n, truncs(dpre.data))
 			// schema-less decode
 			d2 := guarded(func() result {
 				var x interface{}
